@@ -338,6 +338,20 @@ def _has_fileno(f):
         return False
 
 
+def _split_lines(text):
+    # type: (str) -> List[str]
+    """ split text at newlines and carriage returns only
+
+    str.splitlines() also breaks at form feeds, U+0085, U+2028 and other
+    characters that bytes.splitlines() and file iteration leave alone; in a
+    control file they are ordinary characters of a value.
+    """
+    lines = re.split(r'\r\n|\r|\n', text)
+    if not lines[-1]:
+        lines.pop()
+    return lines
+
+
 GPGV_DEFAULT_KEYRINGS = frozenset(['/usr/share/keyrings/debian-keyring.gpg'])
 GPGV_EXECUTABLE = '/usr/bin/gpgv'
 
@@ -734,7 +748,7 @@ class Deb822(Deb822Dict):
             # can follow the types through
             iterable = [] # type: IterableInputDataType
             if isinstance(sequence, str):
-                iterable = iter(sequence.splitlines())
+                iterable = iter(_split_lines(sequence))
             elif isinstance(sequence, bytes):
                 iterable = iter(sequence.splitlines())
             else:
@@ -804,7 +818,9 @@ class Deb822(Deb822Dict):
             # type: (str) -> bool
             return fields is None or f in fields
 
-        if isinstance(sequence, (str, bytes)):
+        if isinstance(sequence, str):
+            sequence = _split_lines(sequence)
+        elif isinstance(sequence, bytes):
             sequence = sequence.splitlines()
 
         curkey = None
@@ -1232,7 +1248,7 @@ class Deb822(Deb822Dict):
         # Make sure there are no blank lines (actually, the first one is
         # allowed to be blank, but no others), and each subsequent line starts
         # with whitespace
-        for line in value.splitlines()[1:]:
+        for line in _split_lines(value)[1:]:
             if not line:
                 raise ValueError("value must not have blank lines")
             if not line[0].isspace():
